@@ -450,6 +450,12 @@ pr_receiver(void *a)
 	}
 	return NULL;
 }
+static void *
+pr_getter(void *a)
+{
+	VH_OK(nng_socket_get_recv_poll_fd(pr_s[1], (int *) a));
+	return NULL;
+}
 static void
 pr_drain_check(nng_socket s, int fd, const char *pn, const char *what)
 {
@@ -488,22 +494,29 @@ run_pollrace(void *arg)
 	}
 	if (v->sub)
 		VH_OK(nng_sub0_socket_subscribe(pr_s[1], "", 0));
-	// the descriptor exists before the race or is created after it
-	int early = vs_choose(VK_ENV, 2);
-	if (early)
+	// the descriptor exists before the race, is created after it, or (2) is created by a
+	// third thread during it (then the pollable's atomics are scheduling points too)
+	int early = vs_choose(VK_ENV, 3);
+	if (early == 1)
 		VH_OK(nng_socket_get_recv_poll_fd(pr_s[1], &fd));
 	VH_OK(nng_listen(pr_s[0], "inproc://c15pr", NULL, 0));
 	VH_OK(nng_dial(pr_s[1], "inproc://c15pr", NULL, 0));
 	vs_settle();
-	pthread_t ts, tr;
+	pthread_t ts, tr, tg;
+	vs_atomic_points = early == 2;
 	vs_window(1);
 	pthread_create(&ts, NULL, pr_sender, NULL);
+	if (early == 2) // (created before the receiver: default order sender, getter, receiver)
+		pthread_create(&tg, NULL, pr_getter, &fd);
 	pthread_create(&tr, NULL, pr_receiver, NULL);
 	pthread_join(ts, NULL);
 	pthread_join(tr, NULL);
+	if (early == 2)
+		pthread_join(tg, NULL);
 	vs_window(0);
+	vs_atomic_points = 0;
 	vs_settle();
-	if (!early)
+	if (early == 0)
 		VH_OK(nng_socket_get_recv_poll_fd(pr_s[1], &fd));
 	vs_nontrivial();
 	pr_drain_check(pr_s[1], fd, v->name[1], "sendX sendX || recvY recvY");
